@@ -145,7 +145,7 @@ def generate(ctx):
             da, db, ops = rng.choice(COMBOS)
             yield {'t': 'series_op', 'kind': kind, 'la': a, 'lb': b, 'rel': rel, 'da': da, 'db': db, 'op': rng.choice(ops),
                    'va': _vals(da, len(a), rng), 'vb': _vals(db, len(b), rng), 'perm_seed': rng.randrange(1 << 30)}
-        elif r < 0.87:
+        elif r < 0.82:
             rk, ck = rng.choice(['str', 'int', 'IndexDate', 'auto', 'hier2']), rng.choice(['str', 'int', 'negint', 'auto'])
             ra, rb, rrel = _relation_labels(rk, rng, 4)
             ca, cb, crel = _relation_labels(ck, rng, 4)
@@ -158,12 +158,17 @@ def generate(ctx):
                    'dta': dta, 'dtb': dtb, 'op': rng.choice(ops),
                    'cells_a': [[rng.choice(POOLS[d]) for d in dta] for _ in ra], 'cells_b': [[rng.choice(POOLS[d]) for d in dtb] for _ in rb],
                    'lay_seed': rng.randrange(1 << 30), 'perm_seed': rng.randrange(1 << 30)}
-        elif r < 0.94:
+        elif r < 0.95:
             ck = rng.choice(['str', 'int', 'negint'])
             ca, lb, crel = _relation_labels(ck, rng, 4)
             da, db, ops = rng.choice(COMBOS[:4])
             nr = rng.randint(1, 3)
-            yield {'t': 'frame_series_op', 'ck': ck, 'ca': ca, 'lb': lb, 'crel': crel, 'da': da, 'db': db, 'op': rng.choice(ops),
+            via_t = rng.random() < 0.5
+            if via_t:
+                # axis-1 application: the Series (or array) is aligned to the ROWS; square and non-square frames
+                nr = len(ca) if rng.random() < 0.5 else rng.randint(1, 4)
+            yield {'t': 'frame_series_op', 'ck': ck, 'ca': ca, 'lb': lb, 'crel': crel, 'da': da, 'db': db, 'op': rng.choice(ops), 'via_t': via_t,
+                   'other_form': rng.choice(['series', 'series', 'array']),
                    'cells_a': [[rng.choice(POOLS[da]) for _ in ca] for _ in range(nr)], 'vb': _vals(db, len(lb), rng), 'lay_seed': rng.randrange(1 << 30)}
         else:
             kind = rng.choice(['str', 'int', 'IndexDate', 'auto'])
@@ -520,15 +525,29 @@ def _check_frame_series(case, ctx):
     op, ca, lb = case['op'], case['ca'], case['lb']
     if not ca:
         return
+    via_t = case.get('via_t', False)
+    form = case.get('other_form', 'series')
     nr = len(case['cells_a'])
-    fa, lay = _frame('auto', case['ck'], list(range(nr)), ca, [case['da']] * len(ca), case['cells_a'], case['lay_seed'])
-    sb = _series(case['ck'], lb, case['vb'], case['db'])
-    ctx.evaluation(repr(case), [cs(x) for x in ca] != [cs(x) for x in lb])
-    ctx.tally('frame_series_op', f"{op}:{case['crel']}")
-    klass = {'t': 'frame_series_op', 'op': op, 'crel': case['crel'], 'opclass': 'arith' if op in ARITH else 'compare'}
+    if via_t:
+        # the labelled axis of the operand is the ROWS: build the frame transposed (rows labelled by `ca`, auto columns)
+        cells_t = [[case['cells_a'][i][j] for i in range(nr)] for j in range(len(ca))]
+        fa, lay = _frame(case['ck'], 'auto', ca, list(range(nr)), [case['da']] * nr, cells_t, case['lay_seed'])
+    else:
+        fa, lay = _frame('auto', case['ck'], list(range(nr)), ca, [case['da']] * len(ca), case['cells_a'], case['lay_seed'])
+    if form == 'array':
+        if len(lb) != len(ca):
+            return
+        lb = list(ca)
+        other = V.to_array(case['vb'], case['db'])
+    else:
+        other = _series(case['ck'], lb, case['vb'], case['db'])
+    ctx.evaluation(repr(case), [cs(x) for x in ca] != [cs(x) for x in lb] or via_t)
+    ctx.tally('frame_series_op', f"{op}:{case['crel']}:{'via_T' if via_t else 'axis0'}:{form}:{'square' if nr == len(ca) else 'rect'}")
+    klass = {'t': 'frame_series_op', 'op': op, 'crel': case['crel'], 'opclass': 'arith' if op in ARITH else 'compare', 'via_t': via_t, 'form': form,
+             'square': nr == len(ca)}
     pb = {cs(l): v for l, v in zip(lb, case['vb'])}
     try:
-        out = _apply(op, fa, sb)
+        out = _apply(op, fa.via_T if via_t else fa, other)
     except Exception as e:
         for j, c in enumerate(ca):
             if cs(c) in pb:
@@ -540,23 +559,27 @@ def _check_frame_series(case, ctx):
                         return
         ctx.violation('operator_raised', detail={'exception': type(e).__name__, 'message': str(e)[:300]}, klass=dict(klass, exception=type(e).__name__))
         return
-    ucols = list(dict.fromkeys([cs(c) for c in ca] + list(pb)))
-    gcols = [cs(x) for x in canon.index_labels(out.columns)]
-    if not _members(gcols, ucols) or len(out.index) != nr:
-        ctx.violation('operator_labels_not_union', detail={'expected_cols': ucols, 'got_cols': gcols}, klass=klass)
+    ulabs = list(dict.fromkeys([cs(c) for c in ca] + list(pb)))
+    glabs = [cs(x) for x in canon.index_labels(out.index if via_t else out.columns)]
+    other_axis_len = len(out.columns) if via_t else len(out.index)
+    if not _members(glabs, ulabs) or other_axis_len != nr:
+        ctx.violation('operator_labels_not_union', detail={'expected': ulabs, 'got': glabs}, klass=klass)
+        return
+    if [cs(x) for x in ca] == [cs(x) for x in lb] and glabs != [cs(x) for x in ca]:
+        ctx.violation('operator_equal_indices_reordered', detail={'expected': [cs(x) for x in ca], 'got': glabs}, klass=klass)
         return
     cols = canon.frame_columns(out)
     pos_a = {cs(c): j for j, c in enumerate(ca)}
-    for j, c in enumerate(gcols):
-        cells = canon.arr_cells(cols[j])
+    for j, c in enumerate(glabs):
         for i in range(nr):
+            g = canon.arr_cells(cols[i])[j] if via_t else canon.arr_cells(cols[j])[i]
             if c in pos_a and c in pb:
                 e = _cell_reference(op, case['cells_a'][i][pos_a[c]], case['da'], pb[c], case['db'])
-                if e is not None and not _cell_eq(cells[i], e):
-                    ctx.violation('operator_cell', detail={'cell': (i, c), 'expected': e, 'got': cells[i]}, klass=klass)
+                if e is not None and not _cell_eq(g, e):
+                    ctx.violation('operator_cell', detail={'cell': (i, c), 'expected': e, 'got': g}, klass=klass)
                     return
-            elif op in ARITH and not _onesided_ok(op, None, None, cells[i]):
-                ctx.violation('operator_one_sided_cell_not_missing', detail={'cell': (i, c), 'got': cells[i]}, klass=klass)
+            elif op in ARITH and not _onesided_ok(op, None, None, g):
+                ctx.violation('operator_one_sided_cell_not_missing', detail={'cell': (i, c), 'got': g}, klass=klass)
                 return
 
 
